@@ -5,6 +5,7 @@ CONSTANTS
   K = 2
   ATOMIC = FALSE
   FULL = TRUE
+  SPARSE = FALSE
   STORAGE = FALSE
 INVARIANT NoCrash
 CHECK_DEADLOCK FALSE
